@@ -204,6 +204,11 @@ class Runner:
                 se = None
                 if m:
                     se = parse_envelope_strict(env[m.end():] + b"\0")
+                    ex = getattr(self, "extra_rcpt", None)
+                    if ex and se:
+                        # FAQ 8.2 build: the queue program adds its own first recipient record; it is taken off here, and anything else
+                        # in its place shows up as a recipient nobody was acknowledged for
+                        se = (se[0], se[1][1:] if se[1][:1] == [ex] else [b"<QUEUE_EXTRA record missing or fused>"] + se[1])
                 commits.append({"msg": msg, "sender": se[0] if se else None, "rcpts": se[1] if se else None, "real": True,
                                 "uid": int(m.group(1)) if m else None, "pid": int(m.group(2)) if m else None})
             ninv = len(snap)
